@@ -250,28 +250,122 @@ type c08keyAt struct {
 	elem *c08elem // the key is a field of this element of a literal table the write loops over (else nil)
 }
 
-// c08elem is one element of a table literal ([]struct{ key, val string }{{...}, {...}}) a loop ranges over.
+// c08elem is one row of a table of {key, value} rows a loop goes over: the rows of a slice / array literal of structs
+// (or of [2]string), of such a table extended with append, merged from several branches, kept in a local cell or a
+// package-level variable, returned by a helper or passed to the looping helper as a parameter, or the entries of a
+// map literal ranged over.
 type c08elem struct {
-	arr *ssa.Alloc // the backing array of the literal
-	idx int64
+	table, index ssa.Value // the table and the index / iteration the element read of the key operand goes through
+	row          c08row
+	ord          int
 }
 
-// c08elemField: v reads field f of "the current element" of a table: d.key with d := tbl[i] / for _, d := range tbl
-// (d a value or a local copy of the element) or tbl[i].key. Returns the table operand and the field.
-func c08elemField(v ssa.Value) (table ssa.Value, field int, ok bool) {
-	switch x := v.(type) {
-	case *ssa.Field:
-		if t, _, ok := c08elemBase(x.X); ok {
-			return t, x.Field, true
+// c08row is one row of such a table.
+type c08row struct {
+	holder ssa.Value      // the address through which the literal stores the columns of the row (struct / array rows)
+	mu     *ssa.MapUpdate // the entry of a map literal (column 0: the key, column 1: the value)
+	ctx    c08ctx         // the call chain under which the column values are to be read
+}
+
+// col: what the literal stores into column f of the row (ok=false: not given, or stored more than once).
+func (r c08row) col(f int) (ssa.Value, bool) {
+	if r.mu != nil {
+		switch f {
+		case 0:
+			return r.mu.Key, true
+		case 1:
+			return r.mu.Value, true
 		}
-	case *ssa.UnOp:
-		if fa, isFA := x.X.(*ssa.FieldAddr); isFA && x.Op == token.MUL {
-			if t, _, ok := c08elemBase(fa.X); ok {
-				return t, fa.Field, true
+		return nil, false
+	}
+	if r.holder == nil || r.holder.Referrers() == nil {
+		return nil, false
+	}
+	var val ssa.Value
+	n := 0
+	for _, ref := range *r.holder.Referrers() {
+		var addr ssa.Value
+		switch x := ref.(type) {
+		case *ssa.FieldAddr:
+			if x.Field == f {
+				addr = x
+			}
+		case *ssa.IndexAddr: // a row that is a small array: [2]string{key, value}
+			if k, isK := constInt(x.Index); isK && int(k) == f && x.X == r.holder {
+				addr = x
+			}
+		}
+		if addr == nil || addr.Referrers() == nil {
+			continue
+		}
+		for _, r2 := range *addr.Referrers() {
+			if st, ok := r2.(*ssa.Store); ok && st.Addr == addr {
+				val = st.Val
+				n++
 			}
 		}
 	}
-	return nil, 0, false
+	return val, n == 1
+}
+
+// c08elemField: v reads column f of "the current row" of a table: d.key with d := tbl[i] / for _, d := range tbl
+// (d a value, a pointer or a local copy of the element), tbl[i].key, d[0] for array rows, or the key / value variable of
+// a range over a map. Returns the table operand, the index (iteration) operand and the column.
+func c08elemField(v ssa.Value) (table, index ssa.Value, field int, ok bool) {
+	switch x := v.(type) {
+	case *ssa.Field:
+		if t, i, ok := c08elemBase(x.X); ok {
+			return t, i, x.Field, true
+		}
+	case *ssa.Index:
+		if k, isK := constInt(x.Index); isK {
+			if t, i, ok := c08elemBase(x.X); ok {
+				return t, i, int(k), true
+			}
+		}
+	case *ssa.UnOp:
+		if x.Op != token.MUL {
+			break
+		}
+		switch a := x.X.(type) {
+		case *ssa.FieldAddr:
+			if t, i, ok := c08elemBase(a.X); ok {
+				return t, i, a.Field, true
+			}
+		case *ssa.IndexAddr:
+			if k, isK := constInt(a.Index); isK {
+				if _, isTbl := c08tableElemType(a.X.Type()).(*types.Basic); !isTbl {
+					break // names[i]: a list, not a row
+				}
+				if t, i, ok := c08elemBase(a.X); ok {
+					return t, i, int(k), true
+				}
+			}
+		}
+	case *ssa.Extract:
+		if nx, isNext := x.Tuple.(*ssa.Next); isNext && !nx.IsString && (x.Index == 1 || x.Index == 2) {
+			if rg, isRange := nx.Iter.(*ssa.Range); isRange {
+				if _, isMap := rg.X.Type().Underlying().(*types.Map); isMap {
+					return rg.X, nx, x.Index - 1, true
+				}
+			}
+		}
+	}
+	return nil, nil, 0, false
+}
+
+// c08tableElemType: the element type of an array / slice / pointer to array (nil otherwise), underlying.
+func c08tableElemType(t types.Type) types.Type {
+	if p, ok := t.Underlying().(*types.Pointer); ok {
+		t = p.Elem()
+	}
+	switch u := t.Underlying().(type) {
+	case *types.Array:
+		return u.Elem().Underlying()
+	case *types.Slice:
+		return u.Elem().Underlying()
+	}
+	return nil
 }
 
 // c08elemBase: x is (the address of / the value of / a local copy of) the element tbl[i] of a table.
@@ -279,6 +373,8 @@ func c08elemBase(x ssa.Value) (table, index ssa.Value, ok bool) {
 	for k := 0; k < 4; k++ {
 		switch y := x.(type) {
 		case *ssa.IndexAddr:
+			return y.X, y.Index, true
+		case *ssa.Index:
 			return y.X, y.Index, true
 		case *ssa.UnOp:
 			if y.Op != token.MUL {
@@ -310,88 +406,226 @@ func c08elemBase(x ssa.Value) (table, index ssa.Value, ok bool) {
 	return nil, nil, false
 }
 
-// c08backing: the array allocated for the literal the table operand denotes: a local literal (slice of / pointer to
-// the array) or a package-level variable initialised with one.
-func c08backing(table ssa.Value) *ssa.Alloc {
-	for k := 0; k < 4; k++ {
-		switch x := table.(type) {
-		case *ssa.Alloc:
-			if _, isArr := x.Type().Underlying().(*types.Pointer).Elem().Underlying().(*types.Array); isArr {
-				return x
+// c08storedThrough: something is stored through the address (directly, or through a field / element address of it).
+func c08storedThrough(addr ssa.Value, d int) bool {
+	if addr.Referrers() == nil || d > 3 {
+		return false
+	}
+	for _, r := range *addr.Referrers() {
+		switch x := r.(type) {
+		case *ssa.Store:
+			if x.Addr == addr {
+				return true
 			}
-			return nil
-		case *ssa.Slice:
-			table = x.X
-		case *ssa.UnOp:
-			g, isG := x.X.(*ssa.Global)
-			if x.Op != token.MUL || !isG || len(gGlobalStores[g]) != 1 || gGlobalEscapes[g] {
-				return nil
+		case *ssa.FieldAddr:
+			if c08storedThrough(x, d+1) {
+				return true
 			}
-			table = gGlobalStores[g][0].Val
-		default:
-			return nil
+		case *ssa.IndexAddr:
+			if x.X == addr && c08storedThrough(x, d+1) {
+				return true
+			}
 		}
 	}
-	return nil
+	return false
 }
 
-// c08elemValues: what the literal stores into field `field` of each of its elements, by element index (nil if an
-// element is not given by constant index or the field is stored more than once).
-func c08elemValues(arr *ssa.Alloc, field int) map[int64]ssa.Value {
-	out := map[int64]ssa.Value{}
-	if arr.Referrers() == nil {
-		return nil
-	}
-	for _, r := range *arr.Referrers() {
-		ia, ok := r.(*ssa.IndexAddr)
-		if !ok || ia.Referrers() == nil {
-			continue
+// c08rowsOf: the rows the table operand can hold, however the table was put together: a literal (rows given by
+// constant index), append(table, rows...), a merge of tables, a local cell or a package-level variable assigned once,
+// the result of a repository helper, a parameter of the looping helper (what the callers pass), a map literal.
+// ok=false: some part of the table is not understood (the caller then falls back to the field-based view).
+func c08rowsOf(table ssa.Value, ctx c08ctx) ([]c08row, bool) {
+	var out []c08row
+	seen := map[ssa.Value]bool{}
+	var walk func(t ssa.Value, ctx c08ctx, d int) bool
+	// the rows stored into the elements of a backing array
+	arrayRows := func(arr *ssa.Alloc, ctx c08ctx) bool {
+		if arr.Referrers() == nil {
+			return false
 		}
-		k, isK := constInt(ia.Index)
-		if !isK {
-			return nil
+		type at struct {
+			k   int64
+			row c08row
 		}
-		for _, r2 := range *ia.Referrers() {
+		var rows []at
+		for _, r := range *arr.Referrers() {
+			ia, isIA := r.(*ssa.IndexAddr)
+			if !isIA {
+				continue
+			}
+			if ia.Referrers() == nil {
+				continue
+			}
+			k, isK := constInt(ia.Index)
+			if !isK {
+				if c08storedThrough(ia, 0) {
+					return false
+				}
+				continue // tbl[i] only read: the loop itself
+			}
 			var holder ssa.Value = ia
-			// the element built in a temporary and stored as a whole: *(&arr[k]) = *complit
-			if st, isSt := r2.(*ssa.Store); isSt && st.Addr == ia {
-				if u, isU := st.Val.(*ssa.UnOp); isU && u.Op == token.MUL {
-					if tmp, isA := u.X.(*ssa.Alloc); isA {
-						holder = tmp
-					}
-				}
-				if holder == ssa.Value(ia) {
+			whole := 0
+			for _, r2 := range *ia.Referrers() {
+				st, isSt := r2.(*ssa.Store)
+				if !isSt || st.Addr != ia {
 					continue
 				}
-			}
-			var fas []*ssa.FieldAddr
-			if holder == ssa.Value(ia) {
-				if fa, ok := r2.(*ssa.FieldAddr); ok {
-					fas = append(fas, fa)
-				}
-			} else if refs := holder.Referrers(); refs != nil {
-				for _, r3 := range *refs {
-					if fa, ok := r3.(*ssa.FieldAddr); ok {
-						fas = append(fas, fa)
+				// the row built in a temporary and stored as a whole (*(&arr[k]) = *complit), or a pointer row (&T{...})
+				whole++
+				switch v := st.Val.(type) {
+				case *ssa.UnOp:
+					tmp, isA := v.X.(*ssa.Alloc)
+					if v.Op != token.MUL || !isA {
+						return false
 					}
+					holder = tmp
+				case *ssa.Alloc:
+					holder = v
+				default:
+					return false
 				}
 			}
-			for _, fa := range fas {
-				if fa.Field != field || fa.Referrers() == nil {
-					continue
-				}
-				for _, r3 := range *fa.Referrers() {
-					if st, ok := r3.(*ssa.Store); ok && st.Addr == fa {
-						if _, dup := out[k]; dup {
-							return nil
-						}
-						out[k] = st.Val
-					}
-				}
+			if whole > 1 {
+				return false
+			}
+			rows = append(rows, at{k, c08row{holder: holder, ctx: ctx}})
+		}
+		sort.SliceStable(rows, func(i, j int) bool { return rows[i].k < rows[j].k })
+		for k := 1; k < len(rows); k++ {
+			if rows[k].k == rows[k-1].k {
+				return false // an element assigned again after the literal
 			}
 		}
+		for _, r := range rows {
+			out = append(out, r.row)
+		}
+		return true
 	}
-	return out
+	walk = func(t ssa.Value, ctx c08ctx, d int) bool {
+		t, ctx = c08arg(t, ctx)
+		if t == nil || d > 10 {
+			return false
+		}
+		if seen[t] {
+			return true // a table grown in a loop: the rows of this operand are already collected
+		}
+		seen[t] = true
+		switch x := t.(type) {
+		case *ssa.Const:
+			return x.IsNil()
+		case *ssa.Slice:
+			return walk(x.X, ctx, d+1)
+		case *ssa.ChangeType:
+			return walk(x.X, ctx, d+1)
+		case *ssa.Phi:
+			for _, e := range x.Edges {
+				if !walk(e, ctx, d+1) {
+					return false
+				}
+			}
+			return true
+		case *ssa.Alloc:
+			if _, isArr := x.Type().Underlying().(*types.Pointer).Elem().Underlying().(*types.Array); isArr {
+				return arrayRows(x, ctx)
+			}
+			return false
+		case *ssa.MakeMap:
+			if x.Referrers() == nil {
+				return false
+			}
+			for _, r := range *x.Referrers() {
+				switch y := r.(type) {
+				case *ssa.MapUpdate:
+					if y.Map != x {
+						return false
+					}
+					out = append(out, c08row{mu: y, ctx: ctx})
+				case *ssa.Range, *ssa.Lookup, *ssa.DebugRef:
+				case *ssa.Call:
+					if calleeName(&y.Call) != "builtin.len" {
+						return false // handed to other code, which may add entries
+					}
+				default:
+					return false
+				}
+			}
+			return true
+		case *ssa.UnOp:
+			if x.Op != token.MUL {
+				return false
+			}
+			switch a := x.X.(type) {
+			case *ssa.Global:
+				if len(gGlobalStores[a]) != 1 || gGlobalEscapes[a] {
+					return false
+				}
+				return walk(gGlobalStores[a][0].Val, nil, d+1)
+			case *ssa.Alloc:
+				// a table variable that lives in a cell (captured, address taken): everything assigned to it
+				if _, isArr := a.Type().Underlying().(*types.Pointer).Elem().Underlying().(*types.Array); isArr {
+					return arrayRows(a, ctx) // an array literal used by value
+				}
+				if a.Referrers() == nil {
+					return false
+				}
+				n := 0
+				for _, r := range *a.Referrers() {
+					if st, isSt := r.(*ssa.Store); isSt && st.Addr == a {
+						n++
+						if !walk(st.Val, ctx, d+1) {
+							return false
+						}
+					}
+				}
+				return n > 0
+			}
+			return false
+		case *ssa.Call:
+			n := typeArgs.ReplaceAllString(calleeName(&x.Call), "")
+			switch n {
+			case "builtin.append", "slices.Concat":
+				for _, a := range x.Call.Args {
+					if !walk(a, ctx, d+1) {
+						return false
+					}
+				}
+				return true
+			case "slices.Clone", "slices.Clip", "maps.Clone":
+				return len(x.Call.Args) == 1 && walk(x.Call.Args[0], ctx, d+1)
+			}
+			sc := x.Call.StaticCallee()
+			if sc == nil || !isRepoFn(sc) || len(sc.Blocks) == 0 || sc.Signature.Results().Len() != 1 || len(ctx) >= 3 {
+				return false
+			}
+			inner := append(c08ctx{x}, ctx...)
+			nRet, all := 0, true
+			eachInstr(sc, func(i ssa.Instruction) {
+				if r, isR := i.(*ssa.Return); isR && all {
+					nRet++
+					all = walk(r.Results[0], inner, d+1)
+				}
+			})
+			return all && nRet > 0
+		case *ssa.Parameter:
+			// the table is handed to the looping helper: the rows of what every caller passes
+			sites, idx := c08sitesOf(x.Parent()), c08paramIndex(x)
+			if len(sites) == 0 || idx < 0 || !onlyStaticallyCalled(x.Parent()) {
+				return false
+			}
+			for _, s := range sites {
+				args := s.Common().Args
+				if idx >= len(args) || !walk(args[idx], nil, d+1) {
+					return false
+				}
+			}
+			return true
+		}
+		return false
+	}
+	if !walk(table, ctx, 0) {
+		return nil, false
+	}
+	return out, true
 }
 
 // c08keys resolves a header-key operand: a constant, a config.Proxy field, or a helper parameter (one instance per
@@ -420,17 +654,21 @@ func c08keys(v ssa.Value, ctx c08ctx, depth int) []c08keyAt {
 			return out
 		}
 	}
-	// the name is a field of the element of a literal table the code loops over: one instance per element
-	if table, field, ok := c08elemField(v); ok && depth < 4 {
-		if arr := c08backing(table); arr != nil {
+	// the name is a column of the row of a table the code loops over: one instance per row
+	if table, index, field, ok := c08elemField(v); ok && depth < 4 {
+		if rows, ok := c08rowsOf(table, ctx); ok {
 			var out []c08keyAt
-			for k, val := range c08elemValues(arr, field) {
-				for _, ka := range c08keys(val, nil, depth+1) {
-					out = append(out, c08keyAt{ka.key, ctx, &c08elem{arr, k}})
+			for n, row := range rows {
+				val, given := row.col(field)
+				if !given {
+					out = nil // a row whose name column is not understood: no per-row view of this table
+					break
+				}
+				for _, ka := range c08keys(val, row.ctx, depth+1) {
+					out = append(out, c08keyAt{ka.key, ctx, &c08elem{table, index, row, n}})
 				}
 			}
 			if len(out) > 0 {
-				sort.Slice(out, func(i, j int) bool { return out[i].elem.idx < out[j].elem.idx })
 				return out
 			}
 		}
@@ -506,9 +744,13 @@ func (w *c08write) val() (ssa.Value, c08ctx) {
 	}
 	v, ctx := c08arg(w.cc.Args[2], w.ctx)
 	if w.elem != nil {
-		if table, field, ok := c08elemField(v); ok && c08backing(table) == w.elem.arr {
-			if ev, ok := c08elemValues(w.elem.arr, field)[w.elem.idx]; ok {
-				return ev, ctx
+		// the value column read from the SAME element as the name column
+		if table, index, field, ok := c08elemField(v); ok {
+			if table != w.elem.table || index != w.elem.index {
+				return nil, ctx // the value of ANOTHER element than the name: cannot be said to be this header's value
+			}
+			if ev, ok := w.elem.row.col(field); ok {
+				return ev, w.elem.row.ctx
 			}
 		}
 	}
@@ -1072,6 +1314,12 @@ func c08sameKey(k ssa.Value, ctx c08ctx, want c08key, wantVal ssa.Value, wantCtx
 	rw, _ := c08arg(wantVal, wantCtx)
 	if rk == rw || c08strip(k) == c08strip(wantVal) {
 		return true
+	}
+	// the same column of the same row of a table read twice (d.key / d[0] / the key variable of a range over a map)
+	if ta, ia, fa, okA := c08elemField(rk); okA {
+		if tb, ib, fb, okB := c08elemField(rw); okB && ta == tb && ia == ib && fa == fb {
+			return true
+		}
 	}
 	// the same field of the same element / struct value read twice (d.key in the test and in the write)
 	if fa, isA := rk.(*ssa.Field); isA {
